@@ -788,6 +788,10 @@ class Gen:
         self.feat("nested_def")
         ref = sorted(ctx["bound"] & set(LOCALS + ctx["params"]))
         body = f"_y + {self.rnd.choice(ref)}" if ref and self.rnd.random() < 0.6 else "_y + 1"
+        if ctx.get("closure") and self.ok("passthrough_free") and self.rnd.random() < 0.6:
+            # cv3 is a closure variable of f that only the nested function reads
+            self.feat("passthrough_free_def")
+            body += " + cv3"
         em.both(f"def {nm}(_y):")
         em.both(f"    return {body}")
         if self.ok("nested_def_name_event"):
@@ -805,6 +809,10 @@ class Gen:
         self.feat("nested_class")
         s = self.leaf()
         em.both(f"class {nm}:")
+        if ctx.get("closure") and self.ok("passthrough_free") and self.rnd.random() < 0.6:
+            # cv3 is a closure variable of f that only the class body reads
+            self.feat("passthrough_free_class")
+            s += " + cv3"
         em.both(f"    cattr = {s}")
         name = self.rnd.choice(LOCALS)
         em.both(f"{name} = {nm}.cattr + 1")
@@ -1093,8 +1101,8 @@ def build_module(rnd, opts=None):
         if g.ok("nonlocal") and rnd.random() < 0.3:
             closure_write = "cv2"
         em = g.function("f", is_gen, closure=["cv1", "cv2"], closure_write=closure_write)
-        body_p = ["def factory(cv1, cv2):"] + ["    " + ln for ln in em.p] + ["    return f", "f = factory(41, 43)"]
-        body_t = ["def factory_T(cv1, cv2):"] + ["    " + ln for ln in em.t] + ["    return f_T", "f_T = factory_T(41, 43)"]
+        body_p = ["def factory(cv1, cv2, cv3=47):"] + ["    " + ln for ln in em.p] + ["    return f", "f = factory(41, 43)"]
+        body_t = ["def factory_T(cv1, cv2, cv3=47):"] + ["    " + ln for ln in em.t] + ["    return f_T", "f_T = factory_T(41, 43)"]
         lines += body_p + [""] + body_t
         lines += [
             "",
